@@ -65,8 +65,61 @@ Qed.
 Theorem py_venc_correct : forall n, py_venc n = venc n.
 Proof. intros n. unfold py_venc, venc. apply py_venc_fuel_eq. Qed.
 
+(* ---------- the or/shift reader ---------- *)
+
+(* disjoint bits: or is addition *)
+Lemma lor_shifted : forall result x shift, result < 2 ^ shift ->
+  N.lor result (N.shiftl x shift) = result + x * 2 ^ shift.
+Proof.
+  intros result x shift H.
+  assert (D : N.land result (N.shiftl x shift) = 0).
+  { apply N.bits_inj. intros n. rewrite N.land_spec, N.bits_0.
+    destruct (N.lt_ge_cases n shift) as [Hlt|Hge].
+    - rewrite N.shiftl_spec_low by exact Hlt. apply andb_false_r.
+    - assert (R : N.testbit result n = false).
+      { rewrite <- (N.mod_small result (2 ^ shift) H). apply N.mod_pow2_bits_high. exact Hge. }
+      rewrite R. reflexivity. }
+  rewrite <- N.lxor_lor by exact D. rewrite <- N.add_nocarry_lxor by exact D.
+  rewrite N.shiftl_mul_pow2. reflexivity.
+Qed.
+
+Lemma land_127 : forall b, N.land b 127 = b mod 128.
+Proof. intros b. change 127 with (N.ones 7). rewrite N.land_ones. reflexivity. Qed.
+
+Lemma vdec_acc_spec : forall l shift result, all_bytes l = true -> result < 2 ^ shift ->
+  vdec_acc l shift result =
+    match vdec l with Some (v, r) => Some (result + v * 2 ^ shift, r) | None => None end.
+Proof.
+  induction l as [|b l IH]; intros shift result Hb Hr; [reflexivity|].
+  cbn [all_bytes forallb] in Hb. apply andb_true_iff in Hb. destruct Hb as [Hb Hl].
+  unfold is_byte in Hb. apply N.ltb_lt in Hb.
+  cbn [vdec_acc vdec]. rewrite land_127, (lor_shifted result (b mod 128) shift Hr).
+  destruct (b <? 128) eqn:E.
+  - apply N.ltb_lt in E. rewrite N.mod_small by exact E. reflexivity.
+  - apply N.ltb_ge in E.
+    assert (Em : b mod 128 = b - 128) by (symmetry; apply N.mod_unique with (q := 1); lia).
+    rewrite Em.
+    assert (Hp : 2 ^ (shift + 7) = 2 ^ shift * 128) by (rewrite N.pow_add_r; reflexivity).
+    rewrite IH; [| exact Hl | rewrite Hp; nia].
+    destruct (vdec l) as [[v r]|]; [|reflexivity].
+    f_equal. f_equal. rewrite Hp. nia.
+Qed.
+
+Theorem vdec_bits_correct : forall l, all_bytes l = true -> vdec_bits l = vdec l.
+Proof.
+  intros l H. unfold vdec_bits. rewrite vdec_acc_spec; [|exact H|reflexivity].
+  destruct (vdec l) as [[v r]|]; [|reflexivity]. f_equal. f_equal. change (2 ^ 0) with 1. lia.
+Qed.
+
+Corollary vdec_bits_venc : forall n r, all_bytes r = true -> vdec_bits (venc n ++ r) = Some (n, r).
+Proof.
+  intros n r Hr. rewrite vdec_bits_correct; [apply vdec_venc|].
+  unfold all_bytes. rewrite forallb_app. apply andb_true_iff. split; [apply venc_bytes|exact Hr].
+Qed.
+
 Example varint_bits_nonvacuous : cpp_venc 300 = [172; 2] /\ py_venc (2 ^ 64 - 1) = venc (2 ^ 64 - 1) /\ length (cpp_venc (2 ^ 64 - 1)) = 10%nat.
 Proof. vm_compute. repeat split. Qed.
 
 Print Assumptions cpp_venc_correct.
 Print Assumptions py_venc_correct.
+Print Assumptions vdec_bits_correct.
